@@ -53,6 +53,7 @@ type SolveOpts struct {
 	Houdini    bool            // candidate check: fast solver, then cvc5 briefly
 	Short      map[string]bool // obligations expected to fail (known findings): short second stage
 	TimeoutS   int
+	Retry      bool // one more race with 3x the limit for undecided obligations that timed out
 	AllSolvers bool // thorough: ask every back end, flag disagreement
 	Dir        string
 	Workers    int
@@ -264,8 +265,12 @@ func (vc *VC) solveOne(o *Obl, enabled map[string]bool, opts SolveOpts, stats *S
 		}()
 	}
 	decided := done
+	sawTimeout := false
 	for range solvers {
 		a := <-ch
+		if a.st == "timeout" {
+			sawTimeout = true
+		}
 		record(a.name, a.st, a.out, a.secs)
 		if a.st == "unsat" || a.st == "sat" {
 			if !decided {
@@ -283,6 +288,33 @@ func (vc *VC) solveOne(o *Obl, enabled map[string]bool, opts SolveOpts, stats *S
 			}
 		} else if !decided && (o.Status == "error" || o.Status == "") && a.st != "error" {
 			o.Status, o.Backend, o.Ms = a.st, a.name, int64(a.secs*1000)
+		}
+	}
+	// stage 3 (quick tier only): an obligation nobody decided and somebody ran
+	// out of time on gets one more race with three times the limit, so that a
+	// loaded machine does not turn a slow proof into an alarm
+	if !decided && sawTimeout && !expectSat && opts.Retry {
+		ch3 := make(chan ans, len(solvers))
+		for _, s := range solvers {
+			s := s
+			go func() {
+				st, out, secs := runSolver(s, file, 3*opts.TimeoutS)
+				ch3 <- ans{s.Name, st, out, secs}
+			}()
+		}
+		for range solvers {
+			a := <-ch3
+			record(a.name+"(retry)", a.st, a.out, a.secs)
+			if (a.st == "unsat" || a.st == "sat") && !decided {
+				decided = true
+				o.Status, o.Backend, o.Ms = a.st, a.name, int64(a.secs*1000)
+				if a.st == "sat" {
+					o.Output = truncate(a.out, 4000)
+				}
+				stats.mu.Lock()
+				stats.Wins[a.name]++
+				stats.mu.Unlock()
+			}
 		}
 	}
 	if o.Status == "error" && o.Output == "solver disagreement" {
